@@ -46,6 +46,9 @@ public:
     static bool apply_announce_pow(Node& n, protocol::AnnouncePayload& p) { return n.apply_announce_pow(p); }
     static void refresh_advertised_endpoints(Node& n) { n.refresh_advertised_endpoints(); }
     static std::string self_endpoint(Node& n) { return n.self_endpoint(); }
+    static void process_pending_fetches(Node& n) { n.process_pending_fetches(); }
+    static auto& swarm_roles(Node& n) { return n.swarm_roles_; }
+    static auto& peer_message_versions(Node& n) { return n.peer_message_versions_; }
 };
 }  // namespace ephemeralnet::test
 
